@@ -28,6 +28,7 @@ class Gen:
         self.nfn = 0
         self.dist = {}
         self.parties = []
+        self.fninfo = {}
 
     # ---- bookkeeping --------------------------------------------------------------------------
     def _sync(self):
@@ -90,17 +91,19 @@ class Gen:
         rng = self.rng
         k = rng.random()
         isarr = lambda d: d[0] == "array"
+        if k < 0.03:
+            return self.scenario()
         if k < 0.10:
             return self.new_input()
-        if k < 0.14:
+        if k < 0.17:
             # array input
-            r = self.new_input(rng.choice(PUBSEC))
-            return self.do({"op": "arrayOf", "r": r, "size": rng.choice([1, 2, 3, 3, 3, 10, 0, -1, None])})
+            r = self.new_input(rng.choice(PUBSEC + ["SecretInteger", "SecretInteger", "PublicInteger"]))
+            return self.do({"op": "arrayOf", "r": r, "size": rng.choice([1, 2, 3, 3, 3, 3, 3, 10, 0, -1, None])})
         if k < 0.22:
             base = rng.choice(["int", "int", "uint", "bool"])
             v = rng.choice([True, False]) if base == "bool" else str(R.big_int(rng, signed=(base == "int")))
             return self.do({"op": "lit", "base": base, "v": v})
-        if k < 0.47:
+        if k < 0.42:
             a = self.scalar()
             if a is None:
                 return self.new_input()
@@ -121,6 +124,8 @@ class Gen:
             if rng.random() < 0.5:
                 a, b = b, a
             return self.do({"op": "bin", "bop": bop, "a": a, "b": b})
+        if k < 0.47:
+            return self.use_fn()
         if k < 0.50:
             a = self.scalar(["Boolean", "PublicBoolean", "SecretBoolean"])
             return self.do({"op": "invert", "a": a}) if a is not None else None
@@ -182,6 +187,10 @@ class Gen:
                 return None
             sz = describe(self.m.regs[a])[1]
             same = self.regs_where(lambda d: d[0] == "array" and d[1] == sz)
+            if rng.random() < 0.5:
+                tup = self.regs_where(lambda d: d[0] == "array" and d[2] == "Tuple")
+                if tup:
+                    return self.do({"op": "unzip", "a": rng.choice(tup)})
             b = rng.choice(same) if rng.random() < 0.8 else self.pick(isarr, anyval=False)
             return self.do({"op": rng.choice(["zip", "zip", "innerProduct"]), "a": a, "b": b})
         if k < 0.91:
@@ -196,41 +205,71 @@ class Gen:
 
     def use_fn(self):
         rng = self.rng
-        fs = self.fn_regs()
-        if not fs:
-            return self.define_fn()
-        f = rng.choice(fs)
-        _, ret, nparams = describe(self.m.regs[f])
         kind = rng.random()
-        if kind < 0.4:
-            args = [self.pick(lambda d: d[0] in ("scalar", "array")) for _ in range(nparams if rng.random() < 0.9 else nparams + 1)]
+        arrays = self.regs_where(lambda d: d[0] == "array" and d[2] in ALLSC)
+        if kind < 0.35 or not arrays:
+            # call: a function and arguments of its parameter classes (90 %) or anything (10 %)
+            fs = self.fn_regs()
+            if not fs:
+                return self.define_fn()
+            f = rng.choice(fs)
+            params, _ = self.fninfo.get(f, ([], None))
+            args = []
+            for _, ann in params:
+                fit = self.regs_where(lambda d, ann=ann: (d[0] == "scalar" and d[1] == ann) if isinstance(ann, str)
+                                      else (d[0] == "array" and d[2] == ann[1]))
+                args.append(rng.choice(fit) if fit and rng.random() < 0.9 else self.pick(lambda d: d[0] in ("scalar", "array")))
+            if rng.random() < 0.07:
+                args = args[:-1] if rng.random() < 0.5 else args + args[:1]
             return self.do({"op": "call", "f": f, "args": args}) if None not in args else None
-        a = self.pick(lambda d: d[0] == "array", anyval=False)
-        if a is None:
+        a = rng.choice(arrays)
+        elem = describe(self.m.regs[a])[2]
+        if kind < 0.7:
+            fit = [f for f in self.fn_regs() if len(self.fninfo.get(f, ([], 0))[0]) == 1 and self.fninfo[f][0][0][1] == elem]
+            if not fit and rng.random() < 0.8:
+                self.define_fn(anns=[elem])
+                fit = [f for f in self.fn_regs() if len(self.fninfo.get(f, ([], 0))[0]) == 1 and self.fninfo[f][0][0][1] == elem]
+            f = rng.choice(fit) if fit and rng.random() < 0.9 else (rng.choice(self.fn_regs()) if self.fn_regs() else None)
+            return self.do({"op": "map", "a": a, "f": f}) if f is not None else None
+        # reduce: f(acc: R, x: elem) -> R with an initial value of class R
+        fit = [f for f in self.fn_regs() if len(self.fninfo.get(f, ([], 0))[0]) == 2 and self.fninfo[f][0][1][1] == elem
+               and self.fninfo[f][0][0][1] == self.fninfo[f][1]]
+        if not fit and rng.random() < 0.8:
+            acc = rng.choice([elem, "Secret" + elem.replace("Public", "").replace("Secret", "")])
+            self.define_fn(anns=[acc, elem], ret=acc)
+            fit = [f for f in self.fn_regs() if len(self.fninfo.get(f, ([], 0))[0]) == 2 and self.fninfo[f][0][1][1] == elem
+                   and self.fninfo[f][0][0][1] == self.fninfo[f][1]]
+        f = rng.choice(fit) if fit and rng.random() < 0.9 else (rng.choice(self.fn_regs()) if self.fn_regs() else None)
+        if f is None:
             return None
-        if kind < 0.75:
-            return self.do({"op": "map", "a": a, "f": f})
-        init = self.scalar()
-        return self.do({"op": "reduce", "a": a, "f": f, "init": init}) if init is not None else None
+        want = self.fninfo.get(f, ([], None))[1]
+        inits = self.regs_where(lambda d: d[0] == "scalar" and d[1] == want)
+        init = rng.choice(inits) if inits and rng.random() < 0.9 else self.scalar()
+        if init is None or (not inits and want in PUBSEC and rng.random() < 0.8):
+            init = self.new_input(want if want in PUBSEC else None)
+        return self.do({"op": "reduce", "a": a, "f": f, "init": init})
 
-    def define_fn(self):
+    def define_fn(self, anns=None, ret=None, plan=None):
         rng = self.rng
         if len(self.cur) > self.max_depth:
             return None
         self.nfn += 1
         name = f"fn{self.nfn}"
-        nparams = rng.choice([1, 1, 2, 2, 3])
-        anns = []
-        for _ in range(nparams):
-            r = rng.random()
-            if r < 0.72:
-                anns.append(rng.choice(PUBSEC))
-            elif r < 0.82:
-                anns.append(rng.choice(["Integer", "UnsignedInteger", "Boolean"]))
-            else:
-                anns.append(["Array", rng.choice(PUBSEC)])
+        if anns is None:
+            anns = []
+            for _ in range(rng.choice([1, 1, 2, 2, 3])):
+                r = rng.random()
+                if r < 0.72:
+                    anns.append(rng.choice(PUBSEC))
+                elif r < 0.82:
+                    anns.append(rng.choice(["Integer", "UnsignedInteger", "Boolean"]))
+                else:
+                    anns.append(["Array", rng.choice(PUBSEC)])
         params = [(f"p{i}", a) for i, a in enumerate(anns)]
-        ret_ann = rng.choice(PUBSEC * 4 + ["Integer"])
+        ret_ann = ret or rng.choice(PUBSEC * 5 + ["Integer"])
+        if ret is None and isinstance(anns[0], str) and rng.random() < 0.5:
+            # a return class the parameters can produce
+            ret_ann = anns[0] if anns[0] in PUBSEC else ret_ann
         self.ncmd += 1
         self.dist["beginFn"] = self.dist.get("beginFn", 0) + 1
 
@@ -239,26 +278,173 @@ class Gen:
             self.next_scope += 1
             self.cur.append(sid)
             self._sync()
+            if plan is not None:
+                planned = plan(param_regs)
+                if planned is not None and self.m.regs[planned] is not DEAD:
+                    self.cur.pop()
+                    return planned
             for _ in range(rng.randint(1, 6)):
                 if self.ncmd < self.max_cmds + 10:
                     self.gen_one()
-            # return a value of the declared class if there is one in scope (truthful annotation),
-            # otherwise anything visible
-            cands = self.regs_where(lambda d: d[0] == "scalar" and d[1] == ret_ann)
-            if cands and rng.random() < 0.9:
-                ret = cands[-1]
+            # return a value of the declared class (truthful annotation) 90 % of the time
+            cands = [r for r in self.regs_where(lambda d: d[0] == "scalar" and d[1] == ret_ann) if self.scope[r] == sid]
+            if not cands and ret_ann in PUBSEC and rng.random() < 0.9:
+                # build one from a parameter: (param op fresh input) has the class of the more secret operand
+                base = ret_ann.replace("Public", "").replace("Secret", "")
+                fresh = self.new_input(ret_ann)
+                mates = [r for r in param_regs if describe(self.m.regs[r])[0] == "scalar"
+                         and describe(self.m.regs[r])[1].replace("Public", "").replace("Secret", "") == base
+                         and not (describe(self.m.regs[r])[1].startswith("Secret") and not ret_ann.startswith("Secret"))]
+                if mates:
+                    self.do({"op": "bin", "bop": "xor" if base == "Boolean" else rng.choice(["add", "sub", "mul"]),
+                             "a": rng.choice(mates), "b": fresh})
+                    cands = [len(self.m.regs) - 1] if self.m.regs[-1] is not DEAD else [fresh]
+                else:
+                    cands = [fresh]
+            if cands and rng.random() < 0.93:
+                ret_reg = cands[-1]
             else:
                 live = self.regs_where(lambda d: d[0] in ("scalar", "array"))
-                ret = rng.choice(live) if live else param_regs[0]
+                ret_reg = rng.choice(live) if live else param_regs[0]
             self.cur.pop()
-            return ret
+            return ret_reg
 
         err = self.m.run_fn(name, params, ret_ann, body)
         self._sync()
-        # parameters and inner registers belong to the function's scope
+        if err is None:
+            self.fninfo[len(self.m.regs) - 1] = (params, ret_ann)
         return err
 
-    def compile_now(self):
+    # ---- structured scenarios (shapes that random choice rarely produces) ----------------------------
+    def last(self):
+        return len(self.m.regs) - 1
+
+    def scenario(self):
+        rng = self.rng
+        if len(self.cur) > 1:
+            return None
+        k = rng.choice(["diamond", "diamond", "captured", "chain", "sites", "zipmap", "nestedzip", "sharedlit", "matrix"])
+        self.dist["scenario:" + k] = self.dist.get("scenario:" + k, 0) + 1
+        T = rng.choice(["SecretInteger", "SecretInteger", "PublicInteger", "SecretUnsignedInteger"])
+        op = lambda: rng.choice(["add", "sub", "mul"])  # noqa: E731
+
+        def fn1(ret_of):
+            """define f(x: T) -> T whose body is ret_of(param regs)"""
+            self.define_fn(anns=[T], ret=T, plan=ret_of)
+            return self.last() if describe(self.m.regs[self.last()])[0] == "fn" else None
+
+        if k in ("diamond", "chain", "sites"):
+            def helper_body(ps):
+                self.do({"op": "bin", "bop": op(), "a": ps[0], "b": ps[0]})
+                return self.last()
+            h = fn1(helper_body)
+            if h is None:
+                return None
+
+            def user_body(ps, h=h):
+                self.do({"op": "call", "f": h, "args": [ps[0]]})
+                c = self.last()
+                self.do({"op": "bin", "bop": op(), "a": c, "b": ps[0]})
+                return self.last()
+            f1 = fn1(user_body)
+            if k == "chain":
+                def top_body(ps, f1=f1):
+                    self.do({"op": "call", "f": f1, "args": [ps[0]]})
+                    return self.last()
+                f2 = fn1(top_body) if f1 is not None else None
+                users = [f2]
+            elif k == "diamond":
+                users = [f1, fn1(user_body)]
+                if rng.random() < 0.3:
+                    users.append(fn1(user_body))
+            else:
+                users = [h, h, f1]
+            x = self.new_input(T)
+            for f in users:
+                if f is None:
+                    continue
+                if rng.random() < 0.6:
+                    self.do({"op": "call", "f": f, "args": [x]})
+                    x = self.last() if self.m.regs[self.last()] is not DEAD else x
+                else:
+                    a = self.new_input(T)
+                    self.do({"op": "arrayOf", "r": a, "size": 3})
+                    arr = self.last()
+                    self.do({"op": "map", "a": arr, "f": f})
+            return None
+        if k == "captured":
+            # an input that is referenced only from inside a function body, owned by its own party
+            self.do({"op": "party", "name": "Captor" + str(rng.randint(0, 3))})
+            p = self.last()
+            cap = self.new_input(T, party=p)
+
+            def body(ps, cap=cap):
+                self.do({"op": "bin", "bop": op(), "a": ps[0], "b": cap})
+                return self.last()
+            f = fn1(body)
+            if f is None:
+                return None
+            a = self.new_input(T)
+            self.do({"op": "arrayOf", "r": a, "size": rng.choice([2, 3])})
+            self.do({"op": "map", "a": self.last(), "f": f})
+            return None
+        if k in ("zipmap", "nestedzip", "matrix"):
+            U = rng.choice([t for t in PUBSEC if t != T])
+            a = self.new_input(T)
+            self.do({"op": "arrayOf", "r": a, "size": 3})
+            arr1 = self.last()
+            b = self.new_input(rng.choice([T, U]))
+            self.do({"op": "arrayOf", "r": b, "size": 3})
+            arr2 = self.last()
+            if k == "zipmap":
+                elem2 = describe(self.m.regs[arr2])[2]
+                R2 = rng.choice([t for t in PUBSEC if t != T])
+                self.define_fn(anns=[elem2], ret=R2)
+                f = self.last()
+                if describe(self.m.regs[f])[0] != "fn":
+                    return None
+                self.do({"op": "map", "a": arr2, "f": f})
+                mapped = self.last()
+                if rng.random() < 0.5:
+                    self.do({"op": "zip", "a": arr1, "b": mapped})
+                else:
+                    self.do({"op": "zip", "a": mapped, "b": arr1})
+                if rng.random() < 0.5:
+                    self.do({"op": "unzip", "a": self.last()})
+                return None
+            if k == "nestedzip":
+                self.do({"op": "zip", "a": arr1, "b": arr2})
+                z = self.last()
+                c = self.new_input(rng.choice(PUBSEC))
+                self.do({"op": "arrayOf", "r": c, "size": 3})
+                self.do({"op": "zip", "a": z, "b": self.last()} if rng.random() < 0.5 else {"op": "zip", "a": self.last(), "b": z})
+                self.do({"op": "unzip", "a": self.last()})
+                return None
+            # matrix: arrays of arrays, zipped and unzipped
+            self.do({"op": "arrayNew", "xs": [arr1, arr1]})
+            m1 = self.last()
+            self.do({"op": "arrayNew", "xs": [arr2, arr2]})
+            m2 = self.last()
+            self.do({"op": "zip", "a": m1, "b": m2})
+            self.do({"op": "unzip", "a": self.last()})
+            return None
+        if k == "sharedlit":
+            # a literal traced before a compilation and reused after it next to a new literal
+            self.do({"op": "lit", "base": "int", "v": str(rng.choice([3, 10, 41]))})
+            l1 = self.last()
+            x = self.new_input("SecretInteger")
+            self.do({"op": "bin", "bop": "add", "a": x, "b": l1})
+            self.compile_now(prefer=[self.last()])
+            self.do({"op": "lit", "base": "int", "v": str(rng.choice([5, 7, 99]))})
+            l2 = self.last()
+            self.do({"op": "bin", "bop": "mul", "a": x, "b": l2})
+            y = self.last()
+            self.do({"op": "bin", "bop": "add", "a": y, "b": l1})
+            self.compile_now(prefer=[self.last()])
+            return None
+        return None
+
+    def compile_now(self, prefer=()):
         rng = self.rng
         cands = [r for r in range(len(self.m.regs)) if self.scope[r] == 0 and self.m.regs[r] is not DEAD
                  and describe(self.m.regs[r])[0] in ("scalar", "array", "tuple", "ntuple", "object")]
@@ -268,6 +454,8 @@ class Gen:
         outs = []
         for i in range(n):
             v = cands[-1 - min(int(rng.expovariate(0.3)), len(cands) - 1)]
+            if i < len(prefer) and prefer[i] in cands:
+                v = prefer[i]
             outs.append([v, f"out{i}" if rng.random() > 0.05 else "out0", rng.choice(self.parties)])
         self.dist["compile"] = self.dist.get("compile", 0) + 1
         return self.m.compile(outs)
